@@ -1226,7 +1226,12 @@ var frameArrRe = regexp.MustCompile(`:pattern \(\(select ([A-Za-z0-9_.$!@]+)`)
 func frameArrayOf(part string) string { return frameArrayName(part) }
 
 // frameArrayName: the array a frame conjunct talks about, without its version suffix (stable across runs).
+var frameVarRe = regexp.MustCompile(`\(forall \(\(ur_\d+__([A-Za-z0-9_.$]+) Ref\)`)
+
 func frameArrayName(part string) string {
+	if m := frameVarRe.FindStringSubmatch(part); m != nil {
+		return m[1]
+	}
 	if m := frameArrRe.FindStringSubmatch(part); m != nil {
 		n := m[1]
 		if i := strings.IndexAny(n, "!@"); i > 0 {
